@@ -17,7 +17,8 @@
    under the shared key).  They were repaired in /repo by d979d25 and fb9758c; the model describes the
    repaired code and every clause is now proved at full strength, without the former premises. *)
 From Sdns Require Import Common.Base Gen.C19 C19.Model
-  C19.Proofs_arith C19.Proofs_policy C19.Proofs_edns C19.Proofs_cache C19.Proofs_tree.
+  C19.Proofs_arith C19.Proofs_policy C19.Proofs_edns C19.Proofs_cache C19.Proofs_tree
+  Common.GoList C19.WireOpt C19.Proofs_wire.
 Open Scope N_scope.
 
 (* ---------------------------------------------------------------- translator ties *)
@@ -137,6 +138,35 @@ Theorem no_ecs_on_the_wire_path : forall noedns cookie nsid keepalive ede l,
   wire_reply_codes noedns cookie nsid keepalive ede = Some l -> ~ In 8 l.
 Proof. exact wire_reply_no_ecs. Qed.
 Print Assumptions no_ecs_on_the_wire_path.
+
+(* ... byte for byte: the record appendWireOPT writes — composed here from the TRANSLATED builders of
+   internal/wire in the order and under the guards of the source (gen_append_wire_opt_shape) — is, for
+   every body, cookie, NSID text, EDE code and text that fit the 16-bit fields, one well-formed OPT
+   record which an RFC 6891 reader reads back as (advertised size, the client's DO bit, exactly the
+   options the layer composed); no client-subnet option (code 8) is among them *)
+Theorem wire_opt_reads_back : forall body f, wire_facts_ok f ->
+  exists rr, append_wire_opt body f = body ++ rr /\
+             read_opt_rr rr = Some (wf_udp f, wf_do f, expected_options f).
+Proof. exact append_wire_opt_reads_back. Qed.
+Print Assumptions wire_opt_reads_back.
+
+Theorem no_ecs_in_the_appended_opt : forall body f, wire_facts_ok f ->
+  exists rr udp do_ os, append_wire_opt body f = body ++ rr /\ read_opt_rr rr = Some (udp, do_, os) /\
+                        ~ In ecs_option_code (map fst os).
+Proof. exact wire_opt_has_no_subnet_option. Qed.
+Print Assumptions no_ecs_in_the_appended_opt.
+
+Theorem wire_opt_composition_read_from_source :
+  append_wire_opt_calls =
+    [ [65;112;112;101;110;100;79;80;84;72;101;97;100;101;114];
+      [65;112;112;101;110;100;79;112;116;105;111;110];
+      [65;112;112;101;110;100;79;112;116;105;111;110;83;116;114;105;110;103];
+      [65;112;112;101;110;100;79;112;116;105;111;110];
+      [65;112;112;101;110;100;79;112;116;105;111;110;69;68;69];
+      [70;105;110;105;115;104;79;80;84] ] /\
+  wire_code_cookie = 10 /\ wire_code_nsid = 3 /\ wire_code_keepalive = 11 /\ wire_code_ede = 15 /\ ecs_option_code = 8.
+Proof. exact wire_opt_composition. Qed.
+Print Assumptions wire_opt_composition_read_from_source.
 
 (* the BADVERS reply (EDNS version <> 0) is a bare OPT, forwarding enabled or not *)
 Theorem no_ecs_in_badvers_reply : forall b remote extra n, In n (badvers_reply_counts b remote extra) -> n = 0.
